@@ -159,7 +159,7 @@ pub fn decode_edits(data: &[u8]) -> c04::Hist {
     ];
     let mut b = Bytes::new(data);
     let mut ops = vec![];
-    while ops.len() < 80 {
+    while ops.len() < 60 {
         let Some(k) = b.u8() else { break };
         let sel = b.u8().unwrap_or(0);
         let sp = b.u8().unwrap_or(0);
